@@ -26,7 +26,7 @@ GRID = {
     "bool": [ct.BoolType(True), ct.BoolType(False)],
     "int": [ct.IntType(0), ct.IntType(1), ct.IntType(-1), ct.IntType(2 ** 63 - 1), ct.IntType(-2 ** 63), ct.IntType(7)],
     "uint": [ct.UintType(0), ct.UintType(1), ct.UintType(2 ** 64 - 1)],
-    "double": [ct.DoubleType(0.0), ct.DoubleType(-0.0), ct.DoubleType(1.5), ct.DoubleType(1e308), ct.DoubleType(-1e308), ct.DoubleType(float("inf")), ct.DoubleType(float("nan")), ct.DoubleType(2.0 ** 63)],
+    "double": [ct.DoubleType(0.0), ct.DoubleType(-0.0), ct.DoubleType(1.5), ct.DoubleType(1e308), ct.DoubleType(-1e308), ct.DoubleType(float("inf")), ct.DoubleType(float("nan")), ct.DoubleType(2.0 ** 63), ct.DoubleType(-2.0 ** 63), ct.DoubleType(2.0 ** 64)],
     "string": [ct.StringType(""), ct.StringType("a"), ct.StringType("1"), ct.StringType("-1"), ct.StringType("1.5"), ct.StringType("true"), ct.StringType("("), ct.StringType("UTC"), ct.StringType("+14:00"),
                ct.StringType("-23:59"), ct.StringType("America/Nowhere"), ct.StringType("2020-01-01T00:00:00Z"), ct.StringType("1h"), ct.StringType("999999999999h"), ct.StringType("\U0001f431"), ct.StringType("1e999")],
     "bytes": [ct.BytesType(b""), ct.BytesType(b"a"), ct.BytesType(b"\xff")],
@@ -84,14 +84,14 @@ def _layer2(rep, tier):
 
 
 # ------------------------------------------------------------------ whole programs, both runners
-ATOMS = ["1", "-1", "0", "9223372036854775807", "-9223372036854775808", "1u", "0u", "18446744073709551615u", "18446744073709551616u", "9223372036854775808", "1.5", "0.0", "1e308", "1e999",
+ATOMS = ["1", "-1", "0", "9223372036854775807", "-9223372036854775808", "1u", "0u", "18446744073709551615u", "18446744073709551616u", "9223372036854775808", "-9223372036854775809.0", "9223372036854775808.0", "1.5", "0.0", "1e308", "1e999",
          '"a"', '""', '"1"', 'b"a"', r'b"Ā"', r'b"\U00000041"', r'b"\xff"', r'"\U0001F431"', r'"\U00110000"', r'"\ud800"', "true", "false", "null", "[]", "[1]", '[1, "a"]', "[[1]]", "{}", '{"a": 1}', "{1: 2}",
          "{[1]: 2}", "{1.5: 1}", "{null: 1}", "{1: 2, 1: 3}", '{"a": 1/0}', "[1/0]", 'timestamp("2020-01-01T00:00:00Z")', 'timestamp("0001-01-01T00:00:00Z")', 'timestamp("9999-12-31T23:59:59Z")',
          'duration("1s")', 'duration("-1s")', "int", "type(1)", "vi", "vs", "vl", "vm", "vn", "vb", "vd", "vby", "vts", "vdur", "vmissing", "vu", '"+14:00"', '"America/Nowhere"', '"("',
-         '"999999999999h"', "9999999999999", "x", "T{a: 1}", "T{a: 1, a: 2}", "vm{a: 1}", "a.b.c", ".vi", ".vmissing"]
+         '"999999999999h"', "9999999999999", "x", "T{a: 1}", "T{a: 1, a: 2}", "vm{a: 1}", "a.b.c", ".vi", ".vmissing", "vmn", "vmn.n", '{"a": null}.a', '{"f": null}', "vm.k", "vm.nokey"]
 ACT = {"vi": ct.IntType(7), "vs": ct.StringType("seven"), "vl": ct.ListType([ct.IntType(1), ct.StringType("x")]), "vm": ct.MapType({ct.StringType("k"): ct.IntType(1)}),
        "vn": None, "vb": ct.BoolType(True), "vd": ct.DoubleType(2.5), "vby": ct.BytesType(b"\xff"), "vu": ct.UintType(3),
-       "vts": ct.TimestampType("2021-02-03T04:05:06Z"), "vdur": ct.DurationType("90s")}
+       "vts": ct.TimestampType("2021-02-03T04:05:06Z"), "vdur": ct.DurationType("90s"), "vmn": ct.MapType({ct.StringType("n"): None, ct.StringType("f"): None})}
 BIN = ["||", "&&", "<", "<=", ">", ">=", "==", "!=", "in", "+", "-", "*", "/", "%"]
 METHODS0 = ["size", "getFullYear", "getMonth", "getDate", "getDayOfMonth", "getDayOfWeek", "getDayOfYear", "getHours", "getMinutes", "getSeconds", "getMilliseconds", "nosuch"]
 METHODS1 = ["contains", "startsWith", "endsWith", "matches", "getHours", "getFullYear", "getDayOfWeek", "getDate", "getMonth", "getMinutes", "getSeconds", "getMilliseconds", "getDayOfYear", "getDayOfMonth", "nosuch"]
